@@ -24,6 +24,7 @@ import (
 	cfgtypes "github.com/agglayer/aggkit/config/types"
 	"github.com/agglayer/aggkit/l1infotreesync"
 	"github.com/agglayer/aggkit/log"
+	treetypes "github.com/agglayer/aggkit/tree/types"
 	aggkittypes "github.com/agglayer/aggkit/types"
 	"github.com/ethereum/go-ethereum/common"
 	ethtypes "github.com/ethereum/go-ethereum/core/types"
@@ -46,6 +47,7 @@ type Step struct {
 	St        string `json:"st"`
 	Storefail int    `json:"storefail"` // k > 0: the first k save attempts fail (retried); k < 0: every attempt fails at statement -k
 	Fin       int    `json:"fin"`       // "finalize": new finalized L1 block
+	Pe        int    `json:"pe"`        // fep: the L2 block at which the prover's proof ends (0 = as requested)
 }
 
 type Behaviour struct {
@@ -53,6 +55,7 @@ type Behaviour struct {
 		Retryimm  bool `json:"retryimm"`
 		Maxblocks int  `json:"maxblocks"`
 		Hasprev   bool `json:"hasprev"`
+		Mode      string `json:"mode"` // pp | fep
 	} `json:"cfg"`
 	Steps []Step `json:"steps"`
 }
@@ -179,6 +182,40 @@ func (a *agglayer) GetEpochConfiguration(context.Context) (*agglayertypes.ClockC
 	return &agglayertypes.ClockConfiguration{EpochDuration: 10, GenesisBlock: 1}, nil
 }
 
+// ---------------------------------------------------------------------------------------------- fakes for the FEP flow
+
+// fakeProver answers GenerateAggchainProof: the proof ends at the requested block, or earlier when told so.
+type fakeProver struct {
+	endAt uint64 // 0 = as requested
+	reqs  int
+}
+
+func (f *fakeProver) GenerateAggchainProof(_ context.Context, r *types.AggchainProofRequest) (*types.AggchainProof, error) {
+	f.reqs++
+	end := r.RequestedEndBlock
+	if f.endAt > r.LastProvenBlock && f.endAt < end {
+		end = f.endAt
+	}
+	return &types.AggchainProof{LastProvenBlock: r.LastProvenBlock, EndBlock: end, CustomChainData: []byte{9},
+		AggchainParams: crypto.Keccak256Hash([]byte("params")), Context: map[string][]byte{},
+		SP1StarkProof: &types.SP1StarkProof{Version: "v", Proof: []byte{1, 2, 3}, Vkey: []byte{4, 5}}}, nil
+}
+
+func (f *fakeProver) GenerateOptimisticAggchainProof(*types.AggchainProofRequest, []byte) (*types.AggchainProof, error) {
+	return nil, errors.New("optimistic mode is not scripted")
+}
+
+type fakeGERQuerier struct{}
+
+func (fakeGERQuerier) GetInjectedGERsProofs(context.Context, *treetypes.Root, uint64, uint64) (
+	map[common.Hash]*agglayertypes.ProvenInsertedGERWithBlockNumber, error) {
+	return map[common.Hash]*agglayertypes.ProvenInsertedGERWithBlockNumber{}, nil
+}
+
+type notOptimistic struct{}
+
+func (notOptimistic) IsOptimisticModeOn() (bool, error) { return false, nil }
+
 // ---------------------------------------------------------------------------------------------- small fakes
 
 type fakeEpoch struct{ ch chan types.EpochEvent }
@@ -267,6 +304,8 @@ type node struct {
 	up      bool
 	ready   bool
 	inj     *stInjector
+	mode    string
+	prover  *fakeProver
 }
 
 func (n *node) dbPath() string { return filepath.Join(n.dir, fmt.Sprintf("aggsender%d.sqlite", n.dbN)) }
@@ -291,7 +330,13 @@ func (n *node) start() error {
 		return err
 	}
 	base := flows.NewBaseFlow(n.logger, l2q, st, l1q, lerq, flows.NewBaseFlowConfig(n.cfg.MaxCertSize, 0, false))
-	flow := flows.NewPPFlow(n.logger, base, st, l1q, l2q, n.signer, false, 0)
+	var flow types.AggsenderFlow
+	if n.mode == "fep" {
+		flow = flows.NewAggchainProverFlow(n.logger, flows.NewAggchainProverFlowConfigDefault(), base, n.prover, st, l1q, l2q,
+			fakeGERQuerier{}, &l1Client{w: n.w}, n.signer, notOptimistic{}, nil)
+	} else {
+		flow = flows.NewPPFlow(n.logger, base, st, l1q, l2q, n.signer, false, 0)
+	}
 	n.epoch = &fakeEpoch{ch: make(chan types.EpochEvent)}
 	n.sender = aggs.NewVerifAggSender(n.logger, n.cfg, n.storage, n.ag, n.epoch, flow, thisNet)
 	n.up, n.ready = true, false
@@ -421,7 +466,8 @@ func runOne(tw *tr.W, root string, idx int, b Behaviour, seed int64) error {
 	if err != nil {
 		return err
 	}
-	n := &node{w: w, dir: dir, logger: log.WithFields("verif", "aggsender"), signer: &recSigner{key: key}}
+	n := &node{w: w, dir: dir, logger: log.WithFields("verif", "aggsender"), signer: &recSigner{key: key}, mode: b.Cfg.Mode,
+		prover: &fakeProver{}}
 	n.ag = &agglayer{hasPrev: b.Cfg.Hasprev}
 	n.cfg = config.Config{
 		MaxRetriesStoreCertificate: 3, DelayBetweenRetries: cfgtypes.Duration{Duration: time.Millisecond},
@@ -435,7 +481,11 @@ func runOne(tw *tr.W, root string, idx int, b Behaviour, seed int64) error {
 	}
 	rec := &recorder{tw: tw, w: w, n: n}
 	n.ag.onSubmit = rec.onSubmit
-	tw.Emit(tr.M{"ev": "reset", "t": idx, "cfg": tr.M{"retryimm": b.Cfg.Retryimm, "hasprev": b.Cfg.Hasprev},
+	mode := b.Cfg.Mode
+	if mode == "" {
+		mode = "pp"
+	}
+	tw.Emit(tr.M{"ev": "reset", "t": idx, "cfg": tr.M{"retryimm": b.Cfg.Retryimm, "hasprev": b.Cfg.Hasprev, "mode": mode},
 		"signer": key.addr.Hex(), "l1": rec.l1Description()})
 	if err := n.start(); err != nil {
 		return err
@@ -493,6 +543,7 @@ func runOne(tw *tr.W, root string, idx int, b Behaviour, seed int64) error {
 				continue
 			}
 			n.ag.failHeader = s.Checkfail
+			n.prover.endAt = uint64(s.Pe)
 			switch s.O {
 			case "sendfail":
 				n.ag.failSend = true
